@@ -199,6 +199,33 @@ func ClosureFn(v ssa.Value) *ssa.Function {
 		}
 	case *ssa.ChangeType:
 		return ClosureFn(f.X)
+	case *ssa.Call:
+		// a factory of the same module: every return hands out a closure of one and the same function literal
+		cal := StaticCallee(&f.Call)
+		if cal == nil || cal.Blocks == nil || f.Parent() == nil || cal.Pkg != f.Parent().Pkg || cal.Signature.Results().Len() != 1 {
+			return nil
+		}
+		var lit *ssa.Function
+		for _, b := range cal.Blocks {
+			ret, ok := b.Instrs[len(b.Instrs)-1].(*ssa.Return)
+			if !ok {
+				continue
+			}
+			var r ssa.Value = ret.Results[0]
+			if ct, isCT := r.(*ssa.ChangeType); isCT {
+				r = ct.X
+			}
+			mc, ok := r.(*ssa.MakeClosure)
+			if !ok {
+				return nil
+			}
+			fn, _ := mc.Fn.(*ssa.Function)
+			if fn == nil || fn.Parent() != cal || (lit != nil && lit != fn) {
+				return nil
+			}
+			lit = fn
+		}
+		return lit
 	}
 	return nil
 }
@@ -542,6 +569,10 @@ func LocalStructField(fa *ssa.FieldAddr) (ssa.Value, int) {
 	case len(whole) == 1 && len(fieldStores) == 0:
 		if call, ok := whole[0].(*ssa.Call); ok {
 			return call, fa.Field
+		}
+		// a bundle handed over by value: a struct parameter of a cut-out helper, or the struct result of one
+		if o := StructFieldOrigin(whole[0], fa.Field, 0); o != nil {
+			return o, -1
 		}
 	case len(whole) == 0 && len(fieldStores) == 1:
 		return fieldStores[0], -1
@@ -1507,4 +1538,110 @@ func FieldName(f *types.Var) string {
 		return old
 	}
 	return f.Name()
+}
+
+// StructFieldOrigin resolves field number field of the struct value v to the one value it was built with, where the struct only
+// carries values between a function and the helpers cut out of it: v is a load of a local composite literal (the field's single
+// store), a parameter of a cut-out helper (the argument at its only call site), or result i of a function of the same package
+// whose returns either build the struct with one and the same value for the field or return the zero struct (error exits).
+// nil when the origin is not unique.
+func StructFieldOrigin(v ssa.Value, field int, depth int) ssa.Value {
+	if depth > 6 || v == nil {
+		return nil
+	}
+	switch x := v.(type) {
+	case *ssa.Parameter:
+		if x.Parent() == nil {
+			return nil
+		}
+		if a, ok := OwnerSub(x.Parent())[x]; ok && a != v {
+			return StructFieldOrigin(a, field, depth+1)
+		}
+	case *ssa.UnOp:
+		al, ok := x.X.(*ssa.Alloc)
+		if !ok || x.Op != token.MUL {
+			return nil
+		}
+		var stores []ssa.Value
+		for _, ref := range *al.Referrers() {
+			switch y := ref.(type) {
+			case *ssa.FieldAddr:
+				for _, r2 := range *y.Referrers() {
+					if st, ok := r2.(*ssa.Store); ok && st.Addr == ssa.Value(y) && y.Field == field {
+						stores = append(stores, st.Val)
+					}
+				}
+			case *ssa.Store:
+				if y.Addr == ssa.Value(al) {
+					return StructFieldOrigin(y.Val, field, depth+1)
+				}
+			}
+		}
+		if len(stores) == 1 {
+			return stores[0]
+		}
+	case *ssa.Extract:
+		call, ok := x.Tuple.(*ssa.Call)
+		if !ok {
+			return nil
+		}
+		return structResultField(call, x.Index, field, depth)
+	case *ssa.Call:
+		return structResultField(x, 0, field, depth)
+	}
+	return nil
+}
+
+func structResultField(call *ssa.Call, res, field, depth int) ssa.Value {
+	cal := StaticCallee(&call.Call)
+	if cal == nil || cal.Blocks == nil || call.Parent() == nil || cal.Pkg != call.Parent().Pkg {
+		return nil
+	}
+	var origin ssa.Value
+	for _, b := range cal.Blocks {
+		ret, ok := b.Instrs[len(b.Instrs)-1].(*ssa.Return)
+		if !ok || res >= len(ret.Results) {
+			continue
+		}
+		r := ret.Results[res]
+		if isZeroStruct(r) {
+			continue
+		}
+		o := StructFieldOrigin(r, field, depth+1)
+		if o == nil || (origin != nil && o != origin) {
+			return nil
+		}
+		origin = o
+	}
+	return origin
+}
+
+// isZeroStruct: a struct constant (zero value) or the load of a local that is never stored to.
+func isZeroStruct(v ssa.Value) bool {
+	if c, ok := v.(*ssa.Const); ok {
+		return c.Value == nil
+	}
+	u, ok := v.(*ssa.UnOp)
+	if !ok {
+		return false
+	}
+	al, ok := u.X.(*ssa.Alloc)
+	if !ok {
+		return false
+	}
+	for _, ref := range *al.Referrers() {
+		switch y := ref.(type) {
+		case *ssa.Store:
+			if y.Addr == ssa.Value(al) {
+				return false
+			}
+		case *ssa.FieldAddr:
+			for _, r2 := range *y.Referrers() {
+				if st, ok := r2.(*ssa.Store); ok && st.Addr == ssa.Value(y) {
+					return false
+				}
+			}
+		}
+	}
+	return true
 }
